@@ -2,8 +2,11 @@
    no case folding: the way gitignore applies wildmatch to one path component).
    A pattern of the fragment
        literal | \c | ? | * | ** | [set] | [!set] | [^set]
-       set ::= element+ ;  element ::= c | \c | lo-hi | lo-\hi
-       (everything wildmatch accepts in brackets except POSIX classes "[:name:]")
+       set ::= element+ ;  element ::= c | \c | lo-hi | lo-\hi | [:class:]
+       class ::= alnum | alpha | blank | cntrl | digit | graph | lower | print |
+                 punct | space | upper | xdigit          (ASCII, as in sane-ctype.h)
+       (everything wildmatch accepts in brackets; an unknown class name or an
+        unterminated "[:" is malformed, as it is for wildmatch)
    denotes a list of items; [Gmatch] says which byte strings a list of items
    matches.  No repository content here. *)
 From Coq Require Import List NArith Bool.
@@ -50,12 +53,47 @@ Fixpoint gmatch (g : list item) (t : bytes) : bool :=
 
 Definition is_some {A} (o : option A) : bool := match o with Some _ => true | None => false end.
 
+(* POSIX character classes denote unions of ASCII ranges *)
+Fixpoint bytes_eqb (a b : bytes) : bool :=
+  match a, b with
+  | [], [] => true
+  | x :: a', y :: b' => (x =? y) && bytes_eqb a' b'
+  | _, _ => false
+  end.
+
+Definition class_ranges (name : bytes) : option (list (N * N)) :=
+  if bytes_eqb name [97;108;110;117;109] then Some [(48, 57); (65, 90); (97, 122)]        (* alnum *)
+  else if bytes_eqb name [97;108;112;104;97] then Some [(65, 90); (97, 122)]               (* alpha *)
+  else if bytes_eqb name [98;108;97;110;107] then Some [(32, 32); (9, 9)]                  (* blank *)
+  else if bytes_eqb name [99;110;116;114;108] then Some [(0, 31); (127, 127)]              (* cntrl *)
+  else if bytes_eqb name [100;105;103;105;116] then Some [(48, 57)]                        (* digit *)
+  else if bytes_eqb name [103;114;97;112;104] then Some [(33, 126)]                        (* graph *)
+  else if bytes_eqb name [108;111;119;101;114] then Some [(97, 122)]                       (* lower *)
+  else if bytes_eqb name [112;114;105;110;116] then Some [(32, 126)]                       (* print *)
+  else if bytes_eqb name [112;117;110;99;116] then Some [(33, 47); (58, 64); (91, 96); (123, 126)]  (* punct *)
+  else if bytes_eqb name [115;112;97;99;101] then Some [(32, 32); (9, 10); (13, 13)]       (* space: SP TAB LF CR (sane-ctype.h) *)
+  else if bytes_eqb name [117;112;112;101;114] then Some [(65, 90)]                        (* upper *)
+  else if bytes_eqb name [120;100;105;103;105;116] then Some [(48, 57); (97, 102); (65, 70)]  (* xdigit *)
+  else None.
+
+(* split at the first closing bracket: (before, after) *)
+Fixpoint cut_rb (s : bytes) : option (bytes * bytes) :=
+  match s with
+  | [] => None
+  | c :: r => if c =? 93 then Some ([], r)
+              else match cut_rb r with Some (a, b) => Some (c :: a, b) | None => None end
+  end.
+
 (* the elements of a set up to and including the closing bracket.
-     element ::= c | \c | lo-hi | lo-\hi
+     element ::= c | \c | lo-hi | lo-\hi | [:class:]
    [prev] is the byte of the preceding single-byte element (a range can start
    from it); a dash is literal when nothing precedes it, when it follows a
-   range, or when it is last; the first element may be a closing bracket or an
-   opening one; "[:" (a POSIX class) is outside the fragment *)
+   range or a class, or when it is last; the first element may be a closing
+   bracket or an opening one.  "[:" opens a class when the text up to the next
+   closing bracket ends in a colon ("[:name:]"): the name must then be one of
+   the twelve above (else the pattern is malformed); when it does not end in a
+   colon the opening bracket is an ordinary element; with no closing bracket
+   at all the pattern is malformed *)
 Fixpoint parse_elems (fuel : nat) (prev : option N) (s : bytes) : option (list (N * N) * bytes) :=
   match fuel with O => None | S f =>
   let cont (prev' : option N) (rs : list (N * N)) (rest : bytes) :=
@@ -84,7 +122,24 @@ Fixpoint parse_elems (fuel : nat) (prev : option N) (s : bytes) : option (list (
         else cont None [(lo, h)] r1
       | _, _ => None
       end
-    else if (c =? 91) && match r with h :: _ => h =? 58 | [] => false end then None
+    else if (c =? 91) && match r with h :: _ => h =? 58 | [] => false end then
+      match r with
+      | _ :: r0 =>
+        match cut_rb r0 with
+        | None => None
+        | Some (name', after) =>
+          match rev name' with
+          | [] => cont (Some c) [(c, c)] r
+          | lastc :: rname =>
+            if negb (lastc =? 58) then cont (Some c) [(c, c)] r
+            else match class_ranges (rev rname) with
+                 | Some rs => cont None rs after
+                 | None => None
+                 end
+          end
+        end
+      | [] => None
+      end
     else cont (Some c) [(c, c)] r
   end
   end.
